@@ -18,7 +18,8 @@ import (
 // C11 — JSON and msgpack encodings round-trip and are well-formed.
 
 // value specs: a tiny term language so that witnesses are replayable
-//   i<n> f<bits> s<quoted> b0 b1 n   A(..)  H<type>(k=v,..)  S(k=v,..) [string keys]
+//
+//	i<n> f<bits> s<quoted> b0 b1 n   A(..)  H<type>(k=v,..)  S(k=v,..) [string keys]
 type c11val struct {
 	spec string
 	mk   func(env *zygo.Zlisp) zygo.Sexp
